@@ -473,11 +473,36 @@ fn c09_try(ctx: &mut Ctx) {
 }
 
 fn c09_floats(ctx: &mut Ctx) {
-    let x = if ctx.chance(1, 10) {
-        let pool = nonfinite_pool();
-        pool[ctx.below(pool.len() as u64) as usize].1
-    } else {
-        dd_exp(ctx, -1022, 1023, true)
+    let x = match ctx.weighted(&[1, 5, 4]) {
+        0 => {
+            let pool = nonfinite_pool();
+            pool[ctx.below(pool.len() as u64) as usize].1
+        }
+        1 => dd_exp(ctx, -1022, 1023, true),
+        _ => {
+            // high word placed relative to the f32 grid: exactly representable, exactly at a
+            // midpoint between two f32 values (a tie of the f64 -> f32 rounding), one f64 ulp
+            // around such a midpoint; across the f32 normal, subnormal and overflow ranges
+            ctx.label("hi:f32-grid");
+            let e = match ctx.weighted(&[6, 2, 2]) {
+                0 => ctx.range(-126, 127),
+                1 => ctx.range(-150, -127),
+                _ => ctx.range(126, 129),
+            };
+            let m23 = ctx.bits(23);
+            let base = f64::from_bits((((e + 1023) as u64) << 52) | (m23 << 29));
+            // half an f32 ulp at this exponent (f32 subnormals: fixed spacing 2^-149)
+            let half = if e >= -126 { oracle::big::pow2_f64(e - 24) } else { oracle::big::pow2_f64(-150) };
+            let hi = match ctx.below(5) {
+                0 => base,
+                1 => base + half,
+                2 => next_up(base + half),
+                3 => next_down(base + half),
+                _ => base + half * 0.5,
+            };
+            let hi = if ctx.flag() { -hi } else { hi };
+            dd_at(ctx, hi)
+        }
     };
     x.key(ctx);
     note_dd(ctx, "x", x);
